@@ -729,6 +729,42 @@ func (ru *run) exhaustive(maxN int, sampleN4 int) {
 	}
 }
 
+// rings with EQUAL tokens (two nodes claim one token while a node is being replaced; a node listing a token twice):
+// Cassandra's placement is not defined for them, the driver must still not panic and not name a node twice
+// (C10_no_panic, C10_nts_nodup, C10_nts_bound, C10_simple_any_ring hold for every token list). At most 12 ring
+// entries: up to that size sort.Sort is an insertion sort, stable like the model's - the order among equal tokens
+// is then determined; only model-vs-code ops (ring construction, whole replica maps).
+func (ru *run) dupScenario() {
+	r := ru.r
+	part := []string{"m", "r", "o"}[r.Intn(3)]
+	n := 2 + r.Intn(4)
+	nDC := 1 + r.Intn(2)
+	dom := 2 + r.Intn(5) // few distinct token values: collisions
+	c := cluster{part: part, vnodes: true}
+	total := 0
+	for i := 0; i < n; i++ {
+		nd := node{id: i + 1, dc: 1 + r.Intn(nDC), rack: 1 + r.Intn(2)}
+		v := 1 + r.Intn(3)
+		for k := 0; k < v && total < 12; k++ {
+			nd.toks = append(nd.toks, big.NewInt(int64(10*r.Intn(dom))))
+			total++
+		}
+		c.nodes = append(c.nodes, nd)
+	}
+	ru.nClust++
+	ru.emit(c.resetOp(), "reset/"+part+"/equal-tokens", true)
+	for _, rf := range []int{1 + r.Intn(3), n + 1} {
+		a := ru.emit(fmt.Sprintf("simple %d", rf), "", true)
+		ru.out.Dist["simple/equal-tokens/"+classifyMap(a)]++
+		delete(ru.out.Dist, "")
+	}
+	for k := 0; k < 2; k++ {
+		a := ru.emit("nts "+genRfs(r, false), "", true)
+		ru.out.Dist["nts/equal-tokens/"+classifyMap(a)]++
+		delete(ru.out.Dist, "")
+	}
+}
+
 func main() {
 	mode, tier, path := vh.Args()
 	if mode == "replay" {
@@ -766,6 +802,9 @@ func main() {
 		ru.exhaustive(3, 1500)
 	} else {
 		ru.exhaustive(1, 60)
+	}
+	for i := 0; i < 200*mult; i++ {
+		ru.dupScenario()
 	}
 	// the ordered partitioner with ring tokens as Cassandra reports them, lookups for raw partition keys
 	ru.ordFixed()
